@@ -148,7 +148,7 @@ def cmd_check(pid, tier):
             for m, cs in by_mode.items():
                 streams.append(Stream("corpus/" + m, m, cs, lambda c, o: True, False,
                                       "committed corpus (minimised past disagreements and witnesses)", None,
-                                      hook and m in ("conc",)))
+                                      hook and m in ("conc", "drain")))
         streams += spec["streams"](tier, rng)
         for st in streams:
             sr = core.run_stream(st.name, st.mode, st.cases, st.nontrivial, st.hook, st.exhaustive, st.bounds,
